@@ -2,7 +2,7 @@ from checks import rapid, plain, fuzz, REPLAY
 
 CHECK = dict(
     pkg="c11", level="exploration",
-    rule="topology of 2-3 configured registries with unique credentials (+ an optional configured-but-unused one): upstream with 0-2 mirrors (with/without the content, "
+    rule="(session 3: host entries also given as configuration-file text - JSON / YAML decoded by /repo; an older generation of the credentials in the host entry overridden by the docker config; registries that redirect every state-changing request to a push endpoint with 307/308/302/303) topology of 2-3 configured registries with unique credentials (+ an optional configured-but-unused one): upstream with 0-2 mirrors (with/without the content, "
          "priorities), copy partners, Docker Hub names, name != hostname; third hosts: blob redirect target (storage host, another registry, the registry itself with "
          "the same or another scheme; 301/302/303/307/308), external layer URL host, upload Location host (hand-over to a backend, or absolute Location with a server "
          "chosen scheme), tag-list Link host, token endpoint on the registry / a separate host / another registry; per host an auth spec (open, Basic, Bearer with "
